@@ -12,6 +12,7 @@ import LhasaV.Lemmas.ExtractTreeOw
 import LhasaV.Lemmas.ExtractTreeImp
 import LhasaV.Lemmas.ArchiveOs
 import LhasaV.Lemmas.ExtractTreeAll
+import LhasaV.Lemmas.ExtractTreeFlatAll
 /-!
 # C06 — extraction reproduces the archived tree: contents, names, times, modes, links
 -/
@@ -510,5 +511,31 @@ theorem extract_selected_any (es : List Entry) (o : Opts) (fs : Fs.St) (answers 
       impTreeOf fs.now fs.umask (es.filter (selected o.filters)) p) ∧
     (∀ x, ¬ fs.cwd <+: x → Fs.lookup (run (archiveOf es) o fs answers).fs x = Fs.lookup fs x) :=
   ArchiveOf.extract_archiveOf_selected_any es o fs answers hwf henc hx hu hfs ha
+
+open ExtractTree ExtractTree.Sample ArchiveOf Contain in
+/-- **Option `i` with everything else** (the combination `extract_unified` leaves out): wildcards,
+`w=DIR`, pre-existing regular files at flattened names and the overwrite policy. Any entry order;
+selected non-directory names pairwise distinct. The run aborts exactly when the policy
+specification does; each flattened name holds the archived object if the plan writes it and EXACTLY
+what was there otherwise; directory entries are ignored entirely (`flat_no_directories`); DIR's
+missing components are made; nothing selected ⇒ untouched. -/
+theorem extract_flat_unified (es : List Entry) (o : Opts) (fs : Fs.St)
+    (answers : Bytes) (ds : List Bytes) (k : Nat)
+    (hok : ∀ e ∈ es, EntryOk e) (henc : Encodable es)
+    (ho : OptsFlat o ds) (hb : BaseU fs ds k) (ha : AccessW fs)
+    (hnames : ((es.filter (fun e => selected o.filters e && !e.isDir)).map Entry.namePart).Nodup)
+    (hpre : ∀ e ∈ es, selected o.filters e = true → e.isDir = false → PreAtF fs ds e)
+    (hans : AskedF fs ds (selected o.filters) es → o.overwrite = .prompt → OwAnswers answers) :
+    FlatOutcome (run (archiveOf es) o fs answers) fs ds (flatPlan fs ds o answers es) ∧
+    MadeFrom fs (mkBase fs ds) (ds.take k) (ds.drop k) :=
+  ArchiveOf.extract_archiveOf_flat_unified es o fs answers ds k hok henc ho hb ha hnames hpre hans
+
+open ExtractTree in
+/-- under `i` no directory appears below the base, whatever the archive's directory entries say -/
+theorem flat_no_directories {r : Extract.St} {fs : Fs.St} {ds : List Bytes} {pl : List Entry × Bool} {k : Nat}
+    (h : FlatOutcome r fs ds pl) (hb : BaseU fs ds k)
+    (hnd : ∀ e ∈ pl.1, e.isDir = false) (p : Fs.Path) (hp : p ≠ []) (m t : Nat) :
+    Fs.lookup r.fs (fs.cwd ++ ds ++ p) ≠ some (.dir m t) :=
+  ExtractTree.flatOutcome_no_dir h hb hnd p hp m t
 
 end LhasaV.Props.C06
